@@ -62,7 +62,7 @@ if with_c12:
    'engine': 'sim',
    'technique': "fault injection at the reader seam: enumeration of storage/transport record-loss patterns (truncation, lost record, lost block, lost head, multiple losses) at every record boundary, checked against an executable reference model of the statement",
    'level_claimed': {'category': 'fault_enumeration',
-      'text': "RESTRICTED SCOPE: C12 is decided only for the loss patterns a storage or transport fault produces at the reader seam - crash-truncation, one lost record, lost blocks, lost head at every record boundary, runs/windows/pairs of whole residues, partial residues, periodic loss (exhaustive per workload file) plus seeded multiple and random-rate losses (patterns F1-F13, DESIGN 12.6) - delivered as path, stream and CLI input; not for arbitrary atom subsets. Oracle: no surviving usable atom record => ValueError; otherwise the call completes; every amino-acid ionizable group whose defining atom survives is reported.",
+      'text': "RESTRICTED SCOPE: C12 is decided only for the loss patterns a storage or transport fault produces at the reader seam - crash-truncation, one lost record, lost blocks, lost head at every record boundary, runs/windows/pairs of whole residues, partial residues, periodic loss (exhaustive per workload file) plus seeded multiple and random-rate losses (patterns F1-F13, DESIGN 12.6), every subset of the records of one small residue and seeded subsets of larger residues/ligands (F14), and name-keyed systematic losses such as CA-only / backbone-only / OXT-stripped files (F15, F16) - delivered as path, stream and CLI input; not for arbitrary atom subsets of the whole structure. Oracle: no surviving usable atom record => ValueError; otherwise the call completes; every amino-acid ionizable group whose defining atom survives is reported.",
       'design_ref': 'DESIGN.md §5, §12.6'},
    'level_note': "Only ATOM/HETATM records are lost (TER/MODEL lines survive), so each faulted file is exactly a valid structure minus a subset of atoms. Torn records are excluded (malformed, not missing). Census clause covers amino-acid groups only and API deliveries only (the CLI summary omits penalised groups by design); expectations are the groups the complete file reports whose defining record (and, for a chain start made by a preceding OXT, that OXT) survives; ligand/ion groups are covered by the no-error clause. The census model reads the working tree's propka.cfg for group mapping and ignorable residues.",
   })
